@@ -22,7 +22,8 @@ RULE = ('Token-soup fuzzer: texts are concatenations of 1-14 tokens drawn from d
         'first weekday, locale, int-digit limit) are compared before and after each call.  Overlapping calls: 2-3 tasks parse texts '
         'concurrently under the baton scheduler (switch points on every line of the tokenizer and the parser core; PCT and random '
         'schedules) and 6 free-running threads with a 1 us switch interval; every outcome must equal that of the same call alone.  Non-trivial = every text except the few fixed smoke inputs; distinct = (outcome class, token-kind '
-        'multiset, input kind, option set).')
+        'multiset, input kind, option set).'
+        ' Also: a three-member date shape sweep (number classes x month-name position x separators x flag combinations), overlapping calls under the baton scheduler and free-running threads (each outcome must equal that of the same call alone), in-process TZ switches between zones sharing abbreviations, non-text inputs incl. memoryview / array / set / complex.')
 ASSUMPTIONS = ['bytes input is UTF-8 text (undecodable bytes are not "text input")',
                'tzinfos mappings/callables supplied by the harness return only documented value types',
                'promptness is judged on executed-line counts, never on wall clock']
